@@ -107,6 +107,9 @@ func (c *C14) Plan(tier string) engine.Plan {
 
 func (c *C14) Run(x *engine.Ctx) *engine.Violation {
 	t := x.T
+	if x.Run >= 1200 && x.Run < 1204 {
+		return c.processClause(x) // real process, real sockets, SIGINT (uncontrolled schedule)
+	}
 	sim := service.NewSim(t, x.Log, x.S)
 	w := &service.World{Sim: sim, Sys: c.sys, StopAfterBegun: -1}
 	gen := &service.Gen{T: t, Sys: c.sys}
